@@ -4,6 +4,7 @@ package overloader
 import (
 	"fmt"
 	"sync"
+	"sync/atomic"
 	"time"
 
 	"github.com/henrylee2cn/erpc/v6"
@@ -68,8 +69,10 @@ func (o *Overloader) PostDial(sess erpc.PreSession, isRedial bool) *erpc.Status 
 
 // PostAccept checks connection overload.
 // If overload, print error log and close the connection.
-func (o *Overloader) PostAccept(_ erpc.PreSession) *erpc.Status {
+func (o *Overloader) PostAccept(sess erpc.PreSession) *erpc.Status {
 	if o.takeConn() {
+		// remember that this session holds a slot: only then does its disconnection release one
+		sess.Swap().Store(connSlotKey, new(connSlot))
 		return nil
 	}
 	msg := fmt.Sprintf("connection overload, limit=%d, now=%d",
@@ -79,10 +82,23 @@ func (o *Overloader) PostAccept(_ erpc.PreSession) *erpc.Status {
 }
 
 // PostDisconnect releases connection count.
-func (o *Overloader) PostDisconnect(_ erpc.BaseSession) *erpc.Status {
-	o.releaseConn()
+func (o *Overloader) PostDisconnect(sess erpc.BaseSession) *erpc.Status {
+	// a connection that was rejected (by this plugin or by another one) never took a slot,
+	// and a slot is given back once only
+	if v, ok := sess.Swap().Load(connSlotKey); ok {
+		if slot, ok := v.(*connSlot); ok && atomic.CompareAndSwapInt32(&slot.released, 0, 1) {
+			o.releaseConn()
+		}
+	}
 	return nil
 }
+
+// connSlot marks a session that was admitted by the connection limiter.
+type connSlot struct {
+	released int32
+}
+
+const connSlotKey = "overloader:conn-slot"
 
 // PostReadCallHeader checks PULL QPS overload.
 // If overload, print error log and reply error.
